@@ -775,6 +775,8 @@ func init() {
 					// directory, and half of the output files are named by the stage
 					// with their physical path (as realpath / pwd -P would give it)
 					cases[len(cases)-1].Tweak = func(s *pgen.Spec) { s.SymlinkedParent = true; s.PhysicalPathsPct = 50 }
+					cases[len(cases)-1].Vdr = []string{"strict", "rolling", "strict", "post"}[(i/6)%4]
+					cases[len(cases)-1].DelayMs = 250
 				}
 				if fc := cases[len(cases)-1]; fc.Template == pgen.NTemplates+8 {
 					// skeleton 7: a consumer that fails transiently and is retried
